@@ -44,7 +44,10 @@ WRAPS = [('\\textcolor{red}{', '}'), ('\\LTadd{', '}'), ('\\framebox[w][c]{', '}
          ('\\begin{uenv}', '\\end{uenv}'), ('\\footnote{', '}'),
          # (the unstarred otherlanguage environment skips space behind its end, as babel does: not generated)
          ('\\begin{otherlanguage*}{german}', '\\end{otherlanguage*}'),
-         ('\\foreignlanguage{german}{', '}'), ('\\mt{', '}')]
+         ('\\foreignlanguage{german}{', '}'), ('\\mt{', '}'),
+         # \xspace as the last token of an argument that the macro body puts directly in front of more text (#1#2):
+         # the next word follows in the source behind '}{', xspace has to see it
+         ('\\mb{', '\\xspace}{', '}')]
 # white space next to the delimiters; the last two also hold vanishing markup (a markup-only line; a control word in front of the closing delimiter)
 WRAP_WS = ['', ' ', '\n', '\n  ', ' \n', '\\index{k}\n', '\\xxx']
 
@@ -84,7 +87,9 @@ def relation(gap):
 def build(case):
     if case[0] == 'wrap':
         _, wi, a, b, c, d = case
-        o, cl = WRAPS[wi]
+        o, cl = WRAPS[wi][:2]
+        if len(WRAPS[wi]) > 2:
+            return '\\newcommand{\\mb}[2]{#1#2}\n' + 'Waaq' + WRAP_WS[a] + o + WRAP_WS[b] + 'Wabq' + WRAP_WS[c] + cl + WRAP_WS[d] + 'Wacq' + WRAPS[wi][2] + '\n'
         pre = '\\newcommand{\\mq}[1]{#1}\n' if 'mq' in o else '\\newcommand{\\mt}[1]{#1#1}\n' if 'mt' in o else '\\usepackage{babel}\n' if 'language' in o else ''
         return pre + 'Waaq' + WRAP_WS[a] + o + WRAP_WS[b] + 'Wabq' + WRAP_WS[c] + cl + WRAP_WS[d] + 'Wacq\n'
     pre, gaps, post = case
@@ -168,8 +173,9 @@ class C05:
             # does this piece hold white space that counts?  (blanks behind a control word do not)
             return bool(re.search(r'[ \t\n]', x.replace('\\xxx ', '').replace('\\xxx\n', '')))
         wsa, wsb, wsc, wsd = (WRAP_WS[k] for k in (a, b, c, d))
+        xs = 'xspace' in WRAPS[wi][1]      # \xspace supplies the blank when a letter follows
         pairs = [('Waaq', 'Wacq', counts(wsa) or counts(wsd))] if foot else \
-            [('Waaq', 'Wabq', counts(wsa) or counts(wsb)), ('Wabq', 'Wacq', counts(wsc) or counts(wsd))]
+            [('Waaq', 'Wabq', counts(wsa) or counts(wsb)), ('Wabq', 'Wacq', xs or counts(wsc) or counts(wsd))]
         if twice:
             pairs.insert(1, ('Wabq', 'Wabq', counts(wsc) or counts(wsb)))
         start = 0
